@@ -2,6 +2,7 @@ import SFV.Driver.Json
 import SFV.Model.FockTensor
 import SFV.Model.PhaseSpace
 import SFV.Model.Bosonic
+import SFV.Model.FockPrep
 /-! Driver for K3 (Gaussian simulator model over `Rat`) and K4 (Fock tensor index algebra over
 Gaussian integers).  Ops: `fock.apply`, `gauss.run`. -/
 namespace SFV.Drv.Sim
@@ -86,6 +87,14 @@ def fockApply (j : Json) : R Json := do
   | "projectResetMixed", ms => do
     let xs ← getNatList j "xs"
     pure <| jarr ((arrayOfTens D (2 * n) (projectResetMixed ms xs (tensOfArray D (2 * n) st))).map jGInt)
+  | "prepareAll", ms => do
+    let isPure := getBoolD j "pure" true
+    let r := if isPure then n else 2 * n
+    pure <| jarr ((arrayOfTens D r (prepareAll isPure n ms (tensOfArray D r st))).map jGInt)
+  | "prepareSome", ms => do
+    -- `state` = old mixed register state (rank 2n), `mat` = the prepared density matrix (rank 2k, interleaved)
+    let σ := tensOfArray D (2 * ms.length) m
+    pure <| jarr ((arrayOfTens D (2 * n) (prepareSome D n ms σ (tensOfArray D (2 * n) st))).map jGInt)
   | "axisLists", ms =>
     pure <| Json.mkObj [("pure", natList (blasList n ms)), ("mixed", natList (blasListMixed n ms)),
       ("purePerm", Json.bool (isPermList (blasList n ms) n)),
